@@ -102,13 +102,18 @@ Bits(v, n) == [v |-> v, nbits |-> n]
 GuamiV == [PLMNIdentity |-> [Value |-> CfgPlmn], AMFRegionID |-> [Value |-> Bits(<<202>>, 8)],
            AMFSetID |-> [Value |-> Bits(<<254, 0>>, 10)], AMFPointer |-> [Value |-> Bits(<<0>>, 6)]]
 SnssaiV == IF Len(Cfg.sd) = 3 THEN [SST |-> [Value |-> <<Cfg.sst>>], SD |-> [Value |-> Cfg.sd]] ELSE [SST |-> [Value |-> <<Cfg.sst>>]]
+\* an AMF may serve several PLMNs (scenario option amfOtherPlmnFirst): another PLMN is then listed in front of the gNB's in the served
+\* GUAMI list and in the PLMN support list; the gNB keeps announcing its own PLMN
+OtherPlmn == <<153, 249, 153>>
+OtherFirst == "amfOtherPlmnFirst" \in DOMAIN Scn /\ Scn.amfOtherPlmnFirst
+PlmnSupportItem(pl) == [PLMNIdentity |-> [Value |-> pl], SliceSupportList |-> [List |-> << [SNSSAI |-> SnssaiV] >>]]
 NgSetupResponse ==
    NgapPdu(1, Proc.NGSetup, 0, "NGSetupResponse",
       << IeR(1, 0, "AMFName", [Value |-> <<65, 77, 70>>]),
-         IeR(96, 0, "ServedGUAMIList", [List |-> << [GUAMI |-> GuamiV] >>]),
+         IeR(96, 0, "ServedGUAMIList", [List |-> (IF OtherFirst THEN << [GUAMI |-> [GuamiV EXCEPT !.PLMNIdentity = [Value |-> OtherPlmn]]] >> ELSE <<>>)
+                                                  \o << [GUAMI |-> GuamiV] >>]),
          IeR(86, 1, "RelativeAMFCapacity", [Value |-> [n |-> 255]]),
-         IeR(80, 0, "PLMNSupportList", [List |-> << [PLMNIdentity |-> [Value |-> CfgPlmn],
-                                                     SliceSupportList |-> [List |-> << [SNSSAI |-> SnssaiV] >>]] >>]) >>)
+         IeR(80, 0, "PLMNSupportList", [List |-> (IF OtherFirst THEN << PlmnSupportItem(OtherPlmn) >> ELSE <<>>) \o << PlmnSupportItem(CfgPlmn) >>]) >>)
 \* the plain form and, for a UE whose context exists, the form with the optional IEs of TS 38.413 9.2.5.2 (RAN paging priority before
 \* the NAS-PDU; mobility restriction list, index to RAT/frequency selection priority, UE-AMBR, allowed NSSAI behind it)
 DlNasTransport(c, nas) ==
@@ -148,10 +153,13 @@ SetupItem(ch, psi, nas) == [PDUSessionID |-> [Value |-> [n |-> psi]], PDUSession
                             PDUSessionResourceSetupRequestTransfer |-> SetupRequestTransfer(ch)]
 \* optional IE a conformant AMF may add (TS 38.413 9.2.1.1): RAN Paging Priority, which precedes the list (the UE aggregate maximum bit
 \* rate of later versions of the standard is not in the library's Release 15 type dictionary and is not used)
-PduSetupRequest(c, ch, psi, nas) ==
+PduSetupRequest(c, ch, psi, nas, msgNas) ==
    NgapPdu(0, Proc.PDUSessionResourceSetup, 0, "PDUSessionResourceSetupRequest",
       IdIes(c)
       \o (IF "setupPaging" \in DOMAIN ch /\ ch.setupPaging THEN << IeR(83, 1, "RANPagingPriority", [Value |-> [n |-> 5]]) >> ELSE <<>>)
+      \* the message-level NAS-PDU (TS 38.413 9.2.1.1): another NAS message pending for the UE, here a plain 5GMM STATUS, next to the
+      \* session's own NAS-PDU inside the list item (msgNas = <<>>: absent)
+      \o (IF Len(msgNas) > 0 THEN << IeR(38, 0, "NASPDU", [Value |-> msgNas]) >> ELSE <<>>)
       \o << IeR(74, 0, "PDUSessionResourceSetupListSUReq", [List |-> << SetupItem(ch, psi, nas) >>]) >>)
 InitialContextSetupRequest(c, ch, nas, withSession) ==
    NgapPdu(0, Proc.InitialContextSetup, 0, "InitialContextSetupRequest",
@@ -281,7 +289,7 @@ HandleRegistrationRequest0(amf, t, m) ==
                   capab |-> IF capab.has THEN capab.v ELSE <<0, 0>>, sess |-> "none", psi |-> -1, pti |-> 0, await |-> {}]
             dup == CtxIndex(amf.ues, ran, 1) IN
         Res([amf EXCEPT !.ues = Append(@, c)],
-            << NgapEncode(DlNasTransport(c, NasEncode(NasAuthReq(ch)))) >>,
+            << NgapEncode(DlNasTransportOpt(c, ch, NasEncode(NasAuthReq(ch)))) >>,
             WfMsg(t, "InitialUEMessage", who) \cup UliChecks(t, who)
             \cup SuciChecks(m.mand[2], u, who)
             \cup (IF m.hdr[1] = 0 THEN {} ELSE {who \o ": initial registration must be sent as plain NAS"})
@@ -340,8 +348,12 @@ HandleUeNasO(amf, i, t, ngapMsg, o) ==
                ELSE CASE sm.m.name = "PDUSessionEstablishmentRequest" ->
                            LET inner == NasEncode(NasPduAccept(ch, psiHdr, pti))
                                dlt == DlProtect(c1.sec, NasEncode(NasDlTransport(inner, psiHdr)), 2)
-                               c2 == [c1 EXCEPT !.sec = dlt.sec, !.sess = "setup", !.psi = psiHdr, !.pti = pti, !.await = @ \cup {"SUResp"}] IN
-                           Res(SetCtx(amf, i, c2), << NgapEncode(PduSetupRequest(c2, ch, psiHdr, dlt.bytes)) >>,
+                               \* optionally another NAS message for the UE rides in the message-level NAS-PDU IE: a 5GMM STATUS, protected
+                               \* under the next downlink COUNT
+                               withMsg == "setupMsgNas" \in DOMAIN ch /\ ch.setupMsgNas
+                               extra == DlProtect(dlt.sec, NasEncode(Mk5GMM("Status5GMM", << <<111>> >>, <<>>)), 2)
+                               c2 == [c1 EXCEPT !.sec = IF withMsg THEN extra.sec ELSE dlt.sec, !.sess = "setup", !.psi = psiHdr, !.pti = pti, !.await = @ \cup {"SUResp"}] IN
+                           Res(SetCtx(amf, i, c2), << NgapEncode(PduSetupRequest(c2, ch, psiHdr, dlt.bytes, IF withMsg THEN extra.bytes ELSE <<>>)) >>,
                                common \cup (IF c.sess \in {"none", "released"} THEN {} ELSE {who \o ": PDU session establishment while a session is " \o c.sess})
                                       \cup (IF NasOpt(m, 34).has /\ NasOpt(m, 34).v = (IF Len(Cfg.sd) = 3 THEN <<Cfg.sst>> \o Cfg.sd ELSE <<Cfg.sst>>) THEN {}
                                             ELSE {who \o ": S-NSSAI " \o ToString(NasOpt(m, 34).v) \o " is not the configured SST/SD"})
